@@ -1,6 +1,6 @@
 #!/usr/bin/env python3
 """Confirm a seeded breaking change in a scratch worktree of /repo and store it under /verif/seeded/.
-usage: confirm_seed.py <out_dir e.g. /tmp/seed/C09.out/1> <name e.g. C09_1>
+usage: confirm_seed.py <out_dir> <name>   (env SEEDROOT=/tmp/seed or /tmp/seed2)
 Checks: patch applies, go build ok, stable tests pass with patch, demo passes without and fails with the patch."""
 import json, os, re, shutil, subprocess, sys, tempfile, glob
 out, name = sys.argv[1], sys.argv[2]
@@ -28,7 +28,7 @@ try:
     cmd = meta.get('demo_cmd', '')
     m = re.search(r'(go test .*)$', cmd.strip().split('&&')[-1])
     demo_cmd = m.group(1) if m else 'go test -vet=off -count=1 ./' + os.path.dirname(placefile)
-    demo_cmd = demo_cmd.replace('/tmp/seed/%s' % name.split('_')[0], wt)
+    demo_cmd = demo_cmd.replace('/tmp/seed2/%s' % name.split('_')[0], wt).replace('/tmp/seed/%s' % name.split('_')[0], wt)
     rc0, o0 = run(demo_cmd)
     res['demo_without'] = 'pass' if rc0 == 0 else 'FAIL'
     rc, o = run('git apply --recount -C1 %s' % os.path.join(out, 'patch.diff'))
